@@ -139,7 +139,12 @@ shape("JSONValidator", max_depth="int", max_size="int")
 shape("LengthValidator", min_length="int", max_length="int")
 contract(FI + "::JSONValidator.validate", "C10", raises=[],
          callbacks={"JSONValidator._measure_depth": {"returns": "int", "raises": ("RecursionError",)}},
-         ensures={"rejection-carries-reason": "implies(not result[0], result[1] is not None)"})
+         ensures={"rejection-carries-reason": "implies(not result[0], result[1] is not None)",
+                  # "no structural validator rejects it": what the shipped JSON validator is configured to reject, it rejects
+                  "oversize-is-rejected": "implies(len(content) > self.max_size, result[0] is False)",
+                  "unparseable-is-rejected": "implies(not json_ok(content), result[0] is False)",
+                  "too-deep-is-rejected": "implies(calls_to('_measure_depth') == 1 and not raised('_measure_depth') and returned('_measure_depth') > self.max_depth, "
+                                          "result[0] is False)"})
 contract(FI + "::LengthValidator.validate", "C10", raises=[],
          ensures={"rejection-carries-reason": "implies(not result[0], result[1] is not None)",
                   "accepts-exactly-in-range": "result[0] == (len(content) >= self.min_length and len(content) <= self.max_length)"})
@@ -157,6 +162,14 @@ contract(TM + ".__init__", "C10", is_init=True, params={"signatures": "none", "r
                                                              "(rate_limit is None) == (self.rate_limit is None) and implies(rate_limit is not None, self.rate_limit == rate_limit)",
                   "innate-signatures-are-installed": "len(self.signatures) == len(Membrane.INNATE_SIGNATURES)",
                   "starts-without-memory": "len(self._blocked_hashes) == 0 and len(self._learned_patterns) == 0"})
+# "... no active signature (built-in, CUSTOM, learned or imported) ...": the caller's signatures are installed after the innate ones
+# (per shape: one and two custom signatures, arbitrary signature objects; list.extend over a symbolic-length list is outside the engine)
+for _n in (1, 2):
+    contract(TM + ".__init__", "C10", is_init=True, variant=f"{_n}-custom-signatures",
+             params={"signatures": "tuple:" + ";".join(["obj:ThreatSignature"] * _n), "rate_limit": "opt:int", "on_threat": "opt:callback"}, raises=[],
+             ensures={"custom-signatures-are-installed-after-the-innate-ones":
+                      f"len(self.signatures) == len(Membrane.INNATE_SIGNATURES) + {_n} and " +
+                      " and ".join(f"self.signatures[len(Membrane.INNATE_SIGNATURES) + {i}] is signatures[{i}]" for i in range(_n))})
 
 
 def native_replay(rep):
